@@ -190,7 +190,7 @@ func TestC01(t *testing.T) {
 func TestC04(t *testing.T) {
 	histTest{
 		prop: "C04", test: "TestC04",
-		weights: Weights{Arrive: 20, Admit: 22, End: 20, Release: 20, Line: 3, Emit: 8, Stall: 4, Resume: 4, Shutdown: 1, CloseInput: 1, MaxOps: 50, BigData: true},
+		weights: Weights{Arrive: 20, Admit: 22, End: 20, Release: 20, Line: 8, Emit: 8, Stall: 4, Resume: 4, Shutdown: 1, CloseInput: 1, MaxOps: 50, BigData: true, Faults: true},
 		oracle:  OracleC04,
 		nontrivial: func(r *Run) bool {
 			ends := 0
